@@ -12,6 +12,7 @@ import os
 import re
 import shutil
 import subprocess
+import sys
 
 from .. import env
 
@@ -32,13 +33,15 @@ LEVEL_TEXT = (
     "must never be deleted or relaunched; at quiescence the tree must equal the reference tree."
 )
 RULE = (
-    "configurations (mode x batch size x plates x chains/chunks) x BFS over trees; transitions = no-crash execution, crash before the "
-    "k-th mkdir/rmdir/unlink of the script, crash inside the pipeline after publishing order ideal I, advised deletion; quick bounds the "
-    "number of crashes per history, thorough runs to the fixpoint; non-trivial = a transition that ends in a crash which leaves a "
+    "configurations (mode x batch size x plates x chains/chunks) x BFS over trees to the fixpoint (any number of interruptions); "
+    "transitions = one invocation of main() without interruption, with an interruption before the k-th mkdir/rmdir/unlink of the script "
+    "(up to the first one after its first pipeline launch returned - later ones start from trees that are states themselves), with an "
+    "interruption inside the first pipeline launch after publishing order ideal I (work directory holding exactly I, or I plus the "
+    "outputs of every task that was ready), and the advised deletion; non-trivial = a transition that ends in a crash which leaves a "
     "partially created / partially published / partially deleted step directory; distinct = distinct (configuration, resulting tree)"
 )
 BOUNDS = {
-    "quick": {"max_crashes_per_history": "unbounded (fixpoint)", "state_cap_per_config": 2500,
+    "quick": {"max_crashes_per_history": "unbounded (fixpoint)", "state_cap_per_config": 2500, "unit_of_execution": "one invocation of the script's main() (its whole driver loop)",
               "configs": "retrospective (batch,plates,chains,chunks) in {(1,3,1,1),(2,4,1,1),(3,5,1,1),(2,3,2,2)}; prospective (batch,iterations) in {(1,2),(2,2),(3,2)} with (1,1) and (2,2,(2,2))"},
     "thorough": {"max_crashes_per_history": "unbounded (fixpoint)", "state_cap_per_config": 40000,
                  "configs": "batch 1..4 x plates 2..5 x {(1,1),(2,2)} both modes; plus batch 11 / 13 plates (two-digit plate dirs)"},
@@ -104,8 +107,9 @@ def materialize(root, tree):
 
 
 def norm_tree(tree):
-    """Canonical form: drop Nextflow's work directories (scratch, never read by the script)."""
-    return frozenset((k, v) for k, v in tree.items() if "/work" not in "/" + k and not k.endswith("/work") and k != "work")
+    """Canonical form of a tree.  Files inside Nextflow's work directories count by name only (their
+    content never matters, but a script that looks into them must not be merged away)."""
+    return frozenset((k, ("w" if v is not None else None) if "work" in k.split("/") else v) for k, v in tree.items())
 
 
 def strip_work(tree):
@@ -145,11 +149,12 @@ class FakeNextflow:
     crash_ideal: None (run to completion) or a frozenset of node names to publish before
     the interruption."""
 
-    def __init__(self, dag_source):
+    def __init__(self, dag_source, root=None):
         self.dag_source = dag_source
         self.launches = []
-        self.crash_ideal = None
-        self.last_nodes = None
+        self.crash = None  # (launch index, frozenset ideal, ahead: bool)
+        self.nodes_per_launch = []
+        self.root = root
 
     def launch_record(self, opts):
         rec = {"mode": opts.get("mode"), "outdir": opts.get("outdir"), "name": opts.get("name"),
@@ -177,6 +182,9 @@ class FakeNextflow:
     def run(self, cmd, cwd=None, **kw):
         opts = parse_cmd(cmd)
         rec = self.launch_record(opts)
+        # the output tree as it is when the pipeline starts (completed steps are judged against it)
+        rec["tree_before"] = capture(self.root) if self.root and os.path.isdir(self.root) else {}
+        launch_index = len(self.launches)
         self.launches.append(rec)
         mode = opts["mode"]
         outdir, name = opts["outdir"], opts["name"]
@@ -200,7 +208,7 @@ class FakeNextflow:
                 f.write("#!/bin/bash\n")
         params = {"mode": mode, "initialize": opts.get("initialize") == "true", "reveal": opts.get("reveal") == "true"}
         nodes = self.dag_source(params, C, K)  # list of (file, task, deps(files))
-        self.last_nodes = nodes
+        self.nodes_per_launch.append(nodes)
         pub = os.path.join(outdir, name)
         produced = {}
 
@@ -261,13 +269,21 @@ class FakeNextflow:
                                               "n_plates": P})
             else:
                 raise ValueError(f"stub does not know how to produce {fname}")
-        ideal = self.crash_ideal
-        order = [n for n in nodes if ideal is None or n[0] in ideal]
-        for fname, task, deps in order:
-            if fname == "advanced_screen.h5" and sel < 0:
-                raise fail  # reveal_plates refuses an empty / all-zero selection
-            os.makedirs(pub, exist_ok=True)
-            p = os.path.join(pub, fname)
+        ideal, ahead = None, False
+        if self.crash is not None and self.crash[0] == launch_index:
+            ideal, ahead = self.crash[1], self.crash[2]
+        published = [n for n in nodes if ideal is None or n[0] in ideal]
+        # a task writes its outputs into Nextflow's work directory first and they are published afterwards: at an
+        # interruption the work directory holds the published files and (ahead=True) also the outputs of every task
+        # whose inputs were complete (finished, not yet published)
+        in_work = list(published)
+        if ideal is not None and ahead:
+            have = {n[0] for n in published}
+            in_work += [n for n in nodes if n[0] not in have and set(n[2]) <= have]
+
+        def write(dirpath, fname):
+            os.makedirs(dirpath, exist_ok=True)
+            p = os.path.join(dirpath, fname)
             if produced[fname] is None:
                 os.makedirs(p, exist_ok=True)
                 with open(os.path.join(p, "summary_statistics.json"), "w") as f:
@@ -275,6 +291,16 @@ class FakeNextflow:
             else:
                 with open(p, "w") as f:
                     f.write(produced[fname])
+
+        if work:
+            for fname, task, deps in in_work:
+                if fname == "advanced_screen.h5" and sel < 0:
+                    continue
+                write(os.path.join(work, "t" + h(task)[:2], h(task, fname), name), fname)
+        for fname, task, deps in published:
+            if fname == "advanced_screen.h5" and sel < 0:
+                raise fail  # reveal_plates refuses an empty / all-zero selection
+            write(pub, fname)
         if ideal is not None:
             raise Crash("pipeline interrupted")
         return 0
@@ -315,15 +341,22 @@ class Sandbox:
     def close(self):
         shutil.rmtree(self.base, ignore_errors=True)
 
+    def set_input(self, observed):
+        with open(self.input, "w") as f:
+            json.dump({"kind": "screen", "plates": self.cfg["plates"], "observed": sorted(observed)}, f)
+
     def execute(self, tree, crash):
-        """crash: None | ("script", k) | ("pipeline", frozenset ideal).
-        Returns dict(outcome, tree, launches, n_script_mutations, advice, error, nodes)."""
+        """One invocation of the script's main() (its whole driver loop) from `tree`.
+        crash: None | ("script", k) | ("pipeline", launch index, frozenset ideal, ahead).
+        Returns dict(outcome in {done, crash, advice, error}, tree, launches, n_script_mutations,
+        mutations_at_launch[j], advice, error, nodes_per_launch)."""
         materialize(self.root, tree)
         mod = script()
-        fake = FakeNextflow(self.dag_source)
+        fake = FakeNextflow(self.dag_source, self.root)
         if crash and crash[0] == "pipeline":
-            fake.crash_ideal = crash[1]
+            fake.crash = (crash[1], crash[2], crash[3])
         counter = {"n": 0, "in_pipeline": False}
+        at_launch = []
         real = {"mkdir": os.mkdir, "rmdir": os.rmdir, "unlink": os.unlink}
         root_prefix = self.base + os.sep
 
@@ -344,21 +377,22 @@ class Sandbox:
 
         def check_call(cmd, *a, **k):
             counter["in_pipeline"] = True
+            at_launch.append(counter["n"])
             try:
                 return fake.run(cmd, *a, **k)
             finally:
                 counter["in_pipeline"] = False
 
         saved_cc = mod.subprocess.check_call
+        saved_argv = sys.argv
         os.mkdir, os.rmdir, os.unlink = wrap("mkdir"), wrap("rmdir"), wrap("unlink")
         mod.subprocess.check_call = check_call
+        sys.argv = ["batchie.py", "--mode", self.cfg["mode"], "--screen", self.input, "--outdir", self.root,
+                    "--batch-size", str(self.cfg["batch"]), "--n_chains", str(self.cfg["chains"]), "--n_chunks", str(self.cfg["chunks"])]
         res = {"outcome": None, "advice": None, "error": None}
         try:
-            fn = mod.run_next_retrospective_step if self.cfg["mode"] == "retrospective" else mod.run_next_prospective_step
-            again = fn(output_dir=self.root, input_screen=self.input,
-                       extra_args=["--n_chains", str(self.cfg["chains"]), "--n_chunks", str(self.cfg["chunks"])],
-                       batch_size=self.cfg["batch"])
-            res["outcome"] = "again" if again else "stop"
+            mod.main()
+            res["outcome"] = "done"
         except Crash:
             res["outcome"] = "crash"
         except RuntimeError as exc:
@@ -369,16 +403,18 @@ class Sandbox:
             else:
                 res["outcome"] = "error"
                 res["error"] = short_exc(exc)
-        except Exception as exc:  # noqa: BLE001
+        except (Exception, SystemExit) as exc:  # noqa: BLE001
             res["outcome"] = "error"
             res["error"] = short_exc(exc)
         finally:
             os.mkdir, os.rmdir, os.unlink = real["mkdir"], real["rmdir"], real["unlink"]
             mod.subprocess.check_call = saved_cc
+            sys.argv = saved_argv
         res["tree"] = capture(self.root) if os.path.isdir(self.root) else {}
         res["launches"] = fake.launches
         res["n_script_mutations"] = counter["n"]
-        res["nodes"] = fake.last_nodes
+        res["mutations_at_launch"] = at_launch
+        res["nodes_per_launch"] = fake.nodes_per_launch
         return res
 
 
@@ -397,40 +433,104 @@ class ReferenceFailure(Exception):
         self.sig, self.msg, self.hist = sig, msg, hist
 
 
+def recorded_selections(tree, upto_iteration):
+    """Plates the user has run after the batches of iterations < upto_iteration (read off the tree)."""
+    out = set()
+    for k, v in strip_work(tree).items():
+        m = STEP_RE.match(k)
+        if m and int(m.group(1)) < upto_iteration and k.endswith("/selected_plate") and v is not None:
+            try:
+                if int(v) >= 0:
+                    out.add(int(v))
+            except ValueError:
+                pass
+    return out
+
+
+def current_round(cfg, tree):
+    """Prospective mode: which batch the user is working on, read off the output directory: batch i is finished
+    when each of its batch-size steps shows a recorded selection and its metadata (what the documented output tree
+    of a finished step contains).  The user then runs those plates and hands the next screen to the script."""
+    t = strip_work(tree)
+    r = 0
+    while True:
+        ok = True
+        for j in range(cfg["batch"]):
+            if step_file(t, (r, j), "selected_plate") is None or step_file(t, (r, j), "screen_metadata.json") is None:
+                ok = False
+                break
+        if not ok:
+            return r
+        r += 1
+
+
+def prepare_input(sb, cfg, tree):
+    """The screen the user hands to the script: retrospective - the fully observed screen; prospective - the
+    screen of the current round: initially observed plate 0 plus the plates selected in the finished batches."""
+    if cfg["mode"] == "retrospective":
+        sb.set_input(range(cfg["plates"]))
+        return 0
+    rnd = current_round(cfg, tree)
+    sb.set_input({0} | recorded_selections(tree, rnd))
+    return rnd
+
+
+def judge_launches(sb, cfg, r, ref, violate, hist, protected_before):
+    """Clauses about every pipeline launch of one execution.  Returns True when something was violated."""
+    bad = False
+    ever_complete = set(protected_before)
+    for L in r["launches"]:
+        tb = L["tree_before"]
+        st = step_of_outdir(sb.root, L["outdir"])
+        for sig_, msg_ in absolute_launch_check(sb, cfg, tb, L):
+            violate(sig_, msg_, hist)
+            bad = True
+        if ref is not None:
+            done_now = complete_steps(tb, ref)
+            ever_complete |= done_now
+            nl = normalize_launch(sb, L)
+            if st in ever_complete:
+                violate("relaunch-completed", f"step {st} was already complete and is launched again", hist)
+                bad = True
+            elif st not in ref["launches"]:
+                if not (cfg["mode"] == "prospective" and st is not None and st[0] >= cfg["iterations"]):
+                    violate("unknown-step", f"launch for step {st} which the uninterrupted run never executes", hist)
+                    bad = True
+            elif nl != ref["launches"][st]:
+                diff = {k: (nl.get(k), ref["launches"][st].get(k)) for k in nl if nl.get(k) != ref["launches"][st].get(k)}
+                violate("inputs-differ", f"step {st} launched with inputs that differ from the uninterrupted run: {diff}", hist)
+                bad = True
+    return bad, ever_complete
+
+
 def reference(sb, cfg):
-    """Crash-free run: launches keyed by step, final tree, files per step.  The
-    uninterrupted run must itself satisfy the absolute clauses of the statement."""
+    """Crash-free run(s): launches keyed by step, final tree, files per step.  The uninterrupted run must itself
+    satisfy the absolute clauses of the statement."""
     tree = {}
     launches = {}
-    n = 0
-    horizon = cfg.get("iterations")
     hist = []
-    expected_steps = cfg["plates"] - 1 if cfg["mode"] == "retrospective" else horizon * cfg["batch"]
-    while True:
+    rounds = 1 if cfg["mode"] == "retrospective" else cfg["iterations"]
+    expected_steps = cfg["plates"] - 1 if cfg["mode"] == "retrospective" else rounds * cfg["batch"]
+    for rnd in range(rounds):
+        got_rnd = prepare_input(sb, cfg, tree)
+        if cfg["mode"] == "prospective" and got_rnd != rnd:
+            raise ReferenceFailure("crash-free|batch-not-finished", f"after {rnd} uninterrupted invocation(s) the output directory shows {got_rnd} finished batch(es)", hist)
         r = sb.execute(tree, None)
-        hist.append("run")
-        if r["outcome"] not in ("again", "stop"):
+        hist.append(f"run(round {rnd})")
+        if r["outcome"] != "done":
             raise ReferenceFailure("crash-free-run-fails", f"without any interruption the script stops with {r['outcome']}: {r['error'] or r['advice']}", hist)
         for L in r["launches"]:
             st = step_of_outdir(sb.root, L["outdir"])
-            for sig, msg in absolute_launch_check(sb, cfg, tree, L):
+            for sig, msg in absolute_launch_check(sb, cfg, L["tree_before"], L):
                 raise ReferenceFailure("crash-free|" + sig, "without any interruption: " + msg, hist)
             if st in launches:
                 raise ReferenceFailure("crash-free|relaunch", f"without any interruption step {st} is launched twice", hist)
+            if cfg["mode"] == "prospective" and st is not None and st[0] != rnd:
+                raise ReferenceFailure("crash-free|wrong-round", f"without any interruption, the invocation for batch {rnd} launches step {st}", hist)
             launches[st] = normalize_launch(sb, L)
         tree = r["tree"]
-        n += 1
-        if cfg["mode"] == "retrospective":
-            if r["outcome"] == "stop":
-                break
-        else:
-            if len(launches) >= horizon * cfg["batch"]:
-                break
-        if n > 4 * expected_steps + 10:
-            raise ReferenceFailure("crash-free-run-fails", "the uninterrupted run does not terminate", hist)
     if len(launches) != expected_steps:
-        raise ReferenceFailure("crash-free|step-count", f"the uninterrupted run executes {len(launches)} steps, expected {expected_steps} "
-                                                        f"(one per unobserved plate)" , hist)
+        raise ReferenceFailure("crash-free|step-count", f"the uninterrupted run executes {len(launches)} steps, expected {expected_steps}", hist)
     files = {}
     for k, v in strip_work(tree).items():
         m = STEP_RE.match(k)
@@ -490,7 +590,7 @@ def absolute_launch_check(sb, cfg, tree, L):
 
 
 def normalize_launch(sb, L):
-    d = dict(L)
+    d = {k: v for k, v in L.items() if k != "tree_before"}
     d["outdir"] = os.path.relpath(L["outdir"], sb.root)
     return d
 
@@ -504,6 +604,43 @@ def complete_steps(tree, ref):
 
 
 # ------------------------------------------------------------------ exploration of one configuration
+def crash_plans(base):
+    """Interruption points of one execution that lead to NEW trees: every filesystem mutation of the script up to
+    and including the first one after its first pipeline launch returned, and every partially published state of
+    that first launch.  Interruptions later in the same invocation are reached from the tree the script is then
+    working on, which is itself a state of the search (the boundary crash point)."""
+    n = base["n_script_mutations"]
+    at = base["mutations_at_launch"]
+    limit = n if len(at) < 2 else at[1]
+    if len(at) >= 1 and base["outcome"] != "done":
+        limit = n
+    plans = [("script", k) for k in range(min(n, limit + 1))]
+    if base["nodes_per_launch"]:
+        for I in ideals(base["nodes_per_launch"][0]):
+            plans.append(("pipeline", 0, I, False))
+            nodes = base["nodes_per_launch"][0]
+            if any(nd[0] not in I and set(nd[2]) <= I for nd in nodes):
+                plans.append(("pipeline", 0, I, True))
+    return plans
+
+
+def plan_label(pl):
+    if pl is None:
+        return "run"
+    if pl[0] == "script":
+        return f"crash@fs{pl[1]}"
+    return f"crash@pipeline{pl[1]}{'+workdir-ahead' if pl[3] else ''}{sorted(pl[2])}"
+
+
+def parse_label(label):
+    if label.startswith("run"):
+        return None
+    if label.startswith("crash@fs"):
+        return ("script", int(label[len("crash@fs"):]))
+    m = re.match(r"crash@pipeline(\d+)(\+workdir-ahead)?(\[.*\])$", label)
+    return ("pipeline", int(m.group(1)), frozenset(json.loads(m.group(3).replace("'", '"'))), bool(m.group(2)))
+
+
 def explore_config(cfg, col, tier, dag_source):
     sb = Sandbox(cfg, dag_source)
     try:
@@ -514,14 +651,10 @@ def explore_config(cfg, col, tier, dag_source):
             col.outcome("reference-failure", rf.sig)
             col.violation(f"C19|{rf.sig}|{cfg['mode']}", f"{cfg}: {rf.msg}; history {rf.hist}", {"cfg": cfg, "history": rf.hist})
             return
-        max_crashes = BOUNDS[tier]["max_crashes_per_history"]
-        max_crashes = max_crashes if isinstance(max_crashes, int) else None
         cap = BOUNDS[tier]["state_cap_per_config"]
-        total_steps = len(ref["launches"])
-        last_step = max(ref["launches"]) if ref["launches"] else None
-        start = ({}, 0)
-        seen = {(norm_tree({}), 0): []}
-        frontier = [start + ([],)]
+        rounds = 1 if cfg["mode"] == "retrospective" else cfg["iterations"]
+        seen = {norm_tree({}): []}
+        frontier = [({}, [])]
         violations_here = 0
 
         def violate(sig, msg, hist):
@@ -533,50 +666,28 @@ def explore_config(cfg, col, tier, dag_source):
             if violations_here > 40:
                 col.count("configs_cut_short_after_40_violations")
                 break
-            tree, ncrash, hist = frontier.pop(0)
-            done_before = complete_steps(tree, ref)
+            tree, hist = frontier.pop(0)
+            if cfg["mode"] == "prospective" and current_round(cfg, tree) >= rounds:
+                # horizon of the exploration: every batch of the reference is recorded; judge what is there
+                check_final(tree, ref, violate, hist)
+                col.outcome("final", cfg["mode"], cfg["batch"])
+                continue
+            rnd = prepare_input(sb, cfg, tree)
+            protected = complete_steps(tree, ref)
             base = sb.execute(tree, None)
-            plans = [None]
-            if max_crashes is None or ncrash < max_crashes:
-                plans += [("script", k) for k in range(base["n_script_mutations"])]
-                if base["launches"] and base["nodes"]:
-                    plans += [("pipeline", I) for I in ideals(base["nodes"])]
-            for plan_ in plans:
-                r = base if plan_ is None else sb.execute(tree, plan_)
+            for pl in [None] + crash_plans(base):
+                r = base if pl is None else sb.execute(tree, pl)
                 col.evaluations += 1
                 col.transitions += 1
-                label = "run" if plan_ is None else (f"crash@fs{plan_[1]}" if plan_[0] == "script" else f"crash@pipeline{sorted(plan_[1])}")
-                h2 = hist + [label]
+                h2 = hist + [plan_label(pl) if pl is not None else f"run(round {rnd})"]
+                if pl is not None and r["outcome"] != "crash":
+                    continue  # the interruption point was not reached on this path
                 bad = False
-                # ---- oracle on the transition
-                if plan_ is not None and r["outcome"] != "crash":
-                    # the crash point was not reached (fewer mutations on this path): same as no-crash
-                    continue
                 if r["outcome"] == "error":
                     violate("error", f"re-running the script fails with {r['error']} instead of progressing or naming a directory", h2)
                     bad = True
-                for L in r["launches"]:
-                    st = step_of_outdir(sb.root, L["outdir"])
-                    nl = normalize_launch(sb, L)
-                    for sig_, msg_ in absolute_launch_check(sb, cfg, tree, L):
-                        violate(sig_, msg_, h2)
-                        bad = True
-                    if st in done_before:
-                        violate("relaunch-completed", f"step {st} was already complete and is launched again", h2)
-                        bad = True
-                    elif st not in ref["launches"]:
-                        if cfg["mode"] == "prospective" and st is not None and st[0] >= cfg["iterations"]:
-                            # horizon of the exploration: the script moved on to the next batch; judge what it left behind
-                            check_final(tree, ref, violate, h2)
-                            col.outcome("final", cfg["mode"], cfg["batch"])
-                            bad = True  # (not a violation: stop exploring this branch)
-                        else:
-                            violate("unknown-step", f"launch for step {st} which the uninterrupted run never executes", h2)
-                            bad = True
-                    elif nl != ref["launches"][st]:
-                        diff = {k: (nl.get(k), ref["launches"][st].get(k)) for k in nl if nl.get(k) != ref["launches"][st].get(k)}
-                        violate("inputs-differ", f"step {st} launched with inputs that differ from the uninterrupted run: {diff}", h2)
-                        bad = True
+                b2, ever = judge_launches(sb, cfg, r, ref, violate, h2, protected)
+                bad = bad or b2
                 new_tree = r["tree"]
                 if r["outcome"] == "advice":
                     adv = r["advice"]
@@ -587,32 +698,28 @@ def explore_config(cfg, col, tier, dag_source):
                     new_tree = {k: v for k, v in new_tree.items() if k not in victims}
                     h2 = h2 + [f"delete {adv}"]
                 done_after = complete_steps(new_tree, ref)
-                lost = done_before - done_after
+                lost = ever - done_after
                 if lost:
                     violate("completed-step-deleted", f"completed step(s) {sorted(lost)} lost files", h2)
                     bad = True
-                for st in done_before & done_after:
-                    for k, v in ref["files"][st].items():
-                        if new_tree.get(k) != tree.get(k):
-                            violate("completed-step-modified", f"file {k} of completed step {st} changed", h2)
-                            bad = True
-                            break
-                if r["outcome"] == "stop" and cfg["mode"] == "retrospective":
-                    check_final(new_tree, ref, violate, h2)
-                    col.outcome("final", cfg["mode"], cfg["batch"])
-                    continue
-                if r["outcome"] == "crash":
-                    partial = [k for k in strip_work(new_tree) if STEP_RE.match(k)]
-                    if norm_tree(new_tree) != norm_tree(tree):
-                        col.nontriv(json.dumps(cfg, sort_keys=True), sorted(norm_tree(new_tree), key=repr).__repr__())
+                for st in protected & done_after:
+                    if any(new_tree.get(k) != tree.get(k) for k in ref["files"][st]):
+                        violate("completed-step-modified", f"a file of completed step {st} changed", h2)
+                        bad = True
+                if r["outcome"] == "crash" and norm_tree(new_tree) != norm_tree(tree):
+                    col.nontriv(json.dumps(cfg, sort_keys=True), repr(sorted(norm_tree(new_tree), key=repr)))
+                if r["outcome"] == "done":
+                    finished = cfg["mode"] == "retrospective" or current_round(cfg, new_tree) >= rounds
+                    if finished:
+                        check_final(new_tree, ref, violate, h2)
+                        col.outcome("final", cfg["mode"], cfg["batch"])
+                        continue
+                    if norm_tree(new_tree) == norm_tree(tree) and not r["launches"]:
+                        violate("no-progress", "the script returned without launching anything or changing the tree", h2)
+                        continue
                 if bad:
                     continue  # do not explore beyond a violating transition
-                nc = ncrash + (1 if r["outcome"] == "crash" else 0)
-                key = (norm_tree(new_tree), nc if max_crashes is not None else 0)
-                # progress check: a run that neither progresses nor advises nor crashes
-                if r["outcome"] == "again" and norm_tree(new_tree) == norm_tree(tree) and not r["launches"]:
-                    violate("no-progress", "the script returned without launching anything or changing the tree, and asks to be run again", h2)
-                    continue
+                key = norm_tree(new_tree)
                 if key in seen:
                     continue
                 if len(seen) >= cap:
@@ -620,10 +727,10 @@ def explore_config(cfg, col, tier, dag_source):
                     continue
                 seen[key] = h2
                 col.states += 1
-                col.outcome(json.dumps(cfg, sort_keys=True), key[0].__hash__())
-                frontier.append((new_tree, nc, h2))
+                col.outcome(json.dumps(cfg, sort_keys=True), hash(key))
+                frontier.append((new_tree, h2))
         col.count("configs")
-        col.count("reference_steps", total_steps)
+        col.count("reference_steps", len(ref["launches"]))
         col.sample({"cfg": cfg, "reference_launches": [{"step": list(st), **{k: v for k, v in L.items() if k in ("mode", "excludes", "initialize", "reveal", "outdir")}}
                                                          for st, L in sorted(ref["launches"].items())][:4],
                     "states": len(seen), "example_history": max(seen.values(), key=len)[:8]})
@@ -655,7 +762,7 @@ def configs(tier):
         for (b, p, c, k) in [(1, 3, 1, 1), (2, 4, 1, 1), (3, 5, 1, 1), (2, 3, 2, 2)]:
             out.append({"mode": "retrospective", "batch": b, "plates": p, "chains": c, "chunks": k})
         for (b, it, c, k) in [(1, 2, 1, 1), (2, 2, 1, 1), (3, 2, 1, 1), (2, 2, 2, 2)]:
-            out.append({"mode": "prospective", "batch": b, "plates": 5, "chains": c, "chunks": k, "iterations": it})
+            out.append({"mode": "prospective", "batch": b, "plates": 2 + b * it, "chains": c, "chunks": k, "iterations": it})
     else:
         for b in (1, 2, 3, 4):
             for p in (2, 3, 4, 5):
@@ -664,7 +771,7 @@ def configs(tier):
                         continue
                     out.append({"mode": "retrospective", "batch": b, "plates": p, "chains": c, "chunks": k})
             for (c, k) in ((1, 1), (2, 2)):
-                out.append({"mode": "prospective", "batch": b, "plates": 5, "chains": c, "chunks": k, "iterations": 2})
+                out.append({"mode": "prospective", "batch": b, "plates": 2 + 2 * b, "chains": c, "chunks": k, "iterations": 2})
         out.append({"mode": "retrospective", "batch": 11, "plates": 13, "chains": 1, "chunks": 1})
     return out
 
@@ -693,43 +800,37 @@ def replay(case, col):
             col.violation(f"C19|{rf.sig}|{cfg['mode']}", rf.msg, case)
             col.evaluations += 1
             return
-        tree = {}
         print("reference launches:")
         for st, L in sorted(ref["launches"].items()):
             print("  ", st, {k: v for k, v in L.items() if v is not None and k not in ("thetas", "distance_matrix")})
+        tree = {}
+        rounds = 1 if cfg["mode"] == "retrospective" else cfg["iterations"]
+
+        def violate(sig, msg, hist):
+            col.violation(f"C19|{sig}|{cfg['mode']}", msg, case)
+
         for label in case["history"]:
             if label.startswith("delete "):
                 adv = label[len("delete "):]
                 tree = {k: v for k, v in tree.items() if not (k == adv or k.startswith(adv + "/"))}
                 print("user deletes", adv)
                 continue
-            if label == "run":
-                plan_ = None
-            elif label.startswith("crash@fs"):
-                plan_ = ("script", int(label[len("crash@fs"):]))
-            else:
-                plan_ = ("pipeline", frozenset(json.loads(label[len("crash@pipeline"):].replace("'", '"'))))
-            done_before = complete_steps(tree, ref)
-            r = sb.execute(tree, plan_)
+            pl = parse_label(label)
+            rnd = prepare_input(sb, cfg, tree)
+            protected = complete_steps(tree, ref)
+            r = sb.execute(tree, pl)
             print(f"{label}: outcome={r['outcome']} advice={r['advice']} error={r['error']} launches="
                   f"{[(step_of_outdir(sb.root, L['outdir']), L['mode'], L['excludes']) for L in r['launches']]}")
-            for L in r["launches"]:
-                st = step_of_outdir(sb.root, L["outdir"])
-                nl = normalize_launch(sb, L)
-                if st in done_before:
-                    col.violation(f"C19|relaunch-completed|{cfg['mode']}", f"step {st} relaunched", case)
-                elif st not in ref["launches"]:
-                    col.violation(f"C19|unknown-step|{cfg['mode']}", f"step {st} unknown", case)
-                elif nl != ref["launches"][st]:
-                    col.violation(f"C19|inputs-differ|{cfg['mode']}", f"step {st} inputs differ", case)
             if r["outcome"] == "error":
-                col.violation(f"C19|error|{cfg['mode']}", r["error"], case)
-            tree = r["tree"]
-            lost = done_before - complete_steps(tree, ref)
+                violate("error", r["error"], [])
+            _, ever = judge_launches(sb, cfg, r, ref, violate, [], protected)
+            new_tree = r["tree"]
+            lost = ever - complete_steps(new_tree if r["outcome"] != "advice" else {k: v for k, v in new_tree.items() if not (k == r["advice"] or k.startswith(r["advice"] + "/"))}, ref)
             if lost:
-                col.violation(f"C19|completed-step-deleted|{cfg['mode']}", f"lost {sorted(lost)}", case)
-            if r["outcome"] == "stop":
-                check_final(tree, ref, lambda s, m, h_: col.violation(f"C19|{s}|{cfg['mode']}", m, case), [])
+                violate("completed-step-deleted", f"lost {sorted(lost)}", [])
+            tree = new_tree
+            if r["outcome"] == "done" and (cfg["mode"] == "retrospective" or current_round(cfg, tree) >= rounds):
+                check_final(tree, ref, violate, [])
         col.evaluations += 1
         print("final tree:")
         for k in sorted(strip_work(tree)):
